@@ -21,8 +21,8 @@ package headers
 
 //@ func trimLeftOWS
 //@   props C14 C17 C18
-//@   local i int
 //@   local sCopy string
+//@   local i int
 //@   pure
 //@   allocs <= 0
 //@   requires 0 <= n && n < 1000000
@@ -37,8 +37,8 @@ package headers
 
 //@ func trimRightOWS
 //@   props C14 C17 C18
-//@   local i int
 //@   local sCopy string
+//@   local i int
 //@   pure
 //@   allocs <= 0
 //@   requires 0 <= n && n < 1000000
@@ -75,9 +75,14 @@ package headers
 
 //@ func Check
 //@   props C14 C17 C18
-//@   local acrh string
-//@   local emptyElements int
+//@   local maxLen uint
 //@   local posOfLastNameSeen int
+//@   local name string
+//@   local commaFound bool
+//@   local emptyElements int
+//@   local ok bool
+//@   local acrh string
+//@   local i int
 //@   pure
 //@   allocs <= 0
 //@   requires SetInv(set)
